@@ -125,3 +125,21 @@ def n_estimate(cls_name: str, size) -> int:
         'RhombicPlanarCode': 3, 'HollowPlanar3DCode': 3,
         'HollowRhombicCode': 3, 'XCubeCode': 3, 'Color3DCode': 24,
     }[cls_name] * vol
+
+
+def needle_sizes(cls_name: str, kmax: int, small=(2, 3)) -> List[Tuple[int, ...]]:
+    """One long direction (up to kmax), small cross-section: the shapes where
+    wrap-around, hole and boundary code paths degenerate."""
+    dim = dimension(cls_name)
+    ok = SUPPORTED[cls_name]
+    out = []
+    if cls_name == 'Color666PlanarCode':
+        return out
+    for axis in range(dim):
+        for c in small:
+            for k in range(c + 1, kmax + 1):
+                s = [c] * dim
+                s[axis] = k
+                if ok(*s) and tuple(s) not in out:
+                    out.append(tuple(s))
+    return out
